@@ -211,24 +211,30 @@ theorem scan_escName (set : UInt8 → Bool) (d : UInt8) (q : Bool) (s : Bytes)
 
 /-! ### unescape ∘ escName -/
 
-theorem unescape_escName (set : UInt8 → Bool) (s : Bytes)
-    (hset : ∀ b, set b = true → isEsc b = true)
+theorem unescapeBy_escName (esc set : UInt8 → Bool) (s : Bytes)
+    (hset : ∀ b, set b = true → esc b = true)
     (hbs : ∀ b ∈ s, b = cBS → set b = true) :
-    unescape (escName set s) = s := by
+    unescapeBy esc (escName set s) = s := by
   induction s with
-  | nil => simp [escName, unescape]
+  | nil => simp [escName, unescapeBy]
   | cons b r ih =>
     have ihr := ih (fun x hx => hbs x (by simp [hx]))
     by_cases hs : set b = true
     · simp only [escName, hs, if_true]
-      simp [unescape, hset b hs, ihr]
+      simp [unescapeBy, hset b hs, ihr]
     · have hs' : set b = false := by simpa using hs
       have hb : b ≠ cBS := fun hb => by have := hbs b (by simp) hb; simp [this] at hs
       simp only [escName, hs']
       rw [show (if false = true then cBS :: b :: escName set r else b :: escName set r) = b :: escName set r from rfl]
       cases hr : escName set r with
-      | nil => rw [hr] at ihr; simp [unescape] at ihr; simp [unescape, ← ihr]
-      | cons c t => rw [hr] at ihr; simp [unescape, hb, ihr]
+      | nil => rw [hr] at ihr; simp [unescapeBy] at ihr; simp [unescapeBy, ← ihr]
+      | cons c t => rw [hr] at ihr; simp [unescapeBy, hb, ihr]
+
+theorem unescape_escName (set : UInt8 → Bool) (s : Bytes)
+    (hset : ∀ b, set b = true → isEsc b = true)
+    (hbs : ∀ b ∈ s, b = cBS → set b = true) :
+    unescape (escName set s) = s :=
+  unescapeBy_escName isEsc set s hset hbs
 
 /-! ### cutAt -/
 
@@ -240,6 +246,33 @@ theorem cutAt_append (d : UInt8) (A B : Bytes) (h : ∀ b ∈ A, b ≠ d) :
     have ha : a ≠ d := h a (by simp)
     have := ih (fun x hx => h x (by simp [hx]))
     simp [cutAt, ha, this]
+
+/-- the escape-aware cut finds the separator after an escaped name, also when the name itself
+contains (escaped) separators -/
+theorem cutAtEsc_escName (set : UInt8 → Bool) (d : UInt8) (k rest : Bytes) (hd : set d = true) (hd2 : d ≠ cBS)
+    (hbs : ∀ b ∈ k, b ≠ cBS) :
+    cutAtEsc d (escName set k ++ d :: rest) = some (escName set k, rest) := by
+  induction k with
+  | nil =>
+    cases rest with
+    | nil => simp [escName, cutAtEsc]
+    | cons c r => simp [escName, cutAtEsc, hd2]
+  | cons b r ih =>
+    have ihr := ih (fun x hx => hbs x (by simp [hx]))
+    by_cases hs : set b = true
+    · simp only [escName, hs, if_true, List.cons_append]
+      simp [cutAtEsc, ihr]
+    · have hs' : set b = false := by simpa using hs
+      have hb : b ≠ cBS := hbs b (by simp)
+      have hbd : b ≠ d := by intro h; subst h; rw [hd] at hs'; exact absurd hs' (by simp)
+      simp only [escName, hs']
+      rw [show (if false = true then cBS :: b :: escName set r else b :: escName set r) = b :: escName set r from rfl]
+      rw [List.cons_append]
+      cases htl : escName set r ++ d :: rest with
+      | nil => simp at htl
+      | cons c t =>
+        rw [htl] at ihr
+        simp [cutAtEsc, hb, hbd, ihr]
 
 theorem mem_escName (set : UInt8 → Bool) (s : Bytes) (x : UInt8) (hx : x ∈ escName set s) :
     x = cBS ∨ x ∈ s := by
